@@ -11,32 +11,7 @@ verus! {
 //@include ../shim/slices_min.rs
 //@include ../shim/bins_types.rs
 
-//@ifmode N
-impl<A: Ord> Edges<A> {
-//@extract file=src/histogram/bins.rs impl=From:Edges fn=from nth=0 id=Edges::from_vec tags=C13,C11
-//@sig
-    fn from(mut edges: Vec<A>) -> (r: Self)
-//@spec
-        requires lawful_ord::<A>(), eq_is_ord_equal::<A>(),
-        ensures
-            edges_wf(r), // [C13] strictly increasing
-            forall|x: A| edges@.contains(x) <==> #[trigger] r.edges@.contains(x), // [C13] exactly the distinct input values
-//@at entry
-        let ghost v0 = edges@;
-//@at after_call sort_unstable 0
-        let ghost v1 = edges@;
-        proof {
-            assert(sorted_le(v1));
-            lemma_dedup_sorted_ord(v1);
-        }
-//@at after_call dedup 0
-        proof {
-            assert forall|x: A| v0.contains(x) <==> #[trigger] edges@.contains(x) by { lemma_perm_contains_iff(v0, v1, x); }
-        }
-//@end
-}
-//@endif
-
+//@include parts/edges_from.part.rs
 impl<A: Ord> std::ops::Index<usize> for Edges<A> {
     type Output = A;
 //@extract file=src/histogram/bins.rs impl=Index:Edges fn=index id=Edges::index tags=C13,C16
@@ -90,14 +65,7 @@ impl<A: Ord> Edges<A> {
 }
 
 impl<A: Ord> Bins<A> {
-//@ifmode N
-//@extract file=src/histogram/bins.rs impl=Bins fn=new id=Bins::new tags=C13
-//@sig
-    pub fn new(edges: Edges<A>) -> (r: Self)
-//@spec
-        ensures r.edges == edges, // [C13]
-//@end
-//@endif
+//@include parts/bins_new.part.rs
 //@extract file=src/histogram/bins.rs impl=Bins fn=len id=Bins::len tags=C13,C16
 //@sig
     pub fn len(&self) -> (n: usize)
